@@ -8,6 +8,7 @@
   unchanged.  They are nevertheless stated for an *arbitrary* schedule / loader / merge function.
 -/
 import Grenad.Proofs.IOProofs
+import Grenad.Proofs.Wave3IO
 
 namespace Grenad.Props.C12
 
@@ -484,3 +485,78 @@ example : (RC.first byteOps (fun _ => none)
   simp [RC.first, RC.iterIndex, RC.initialIndex]
 
 end Grenad.Props.C12
+
+/-! ### The writer under an arbitrary sink schedule (`Grenad.Model.WriterIO`) -/
+
+namespace Grenad.Props.C12
+
+open Grenad Grenad.IOM Grenad.Wave3
+
+section
+variable {cd : Codec} {cfg : WCfg} {es : List Entry} {file : Bytes} {log : List Emitted}
+  {m : Meta.Meta}
+
+/-- **C12, the writer's sink.**  `W.runIO cd log m sch` is the complete writer run (all its
+    `write_all` calls: two per block, five for the trailer) against a sink answering from an
+    *arbitrary* schedule `sch`; `file` is what the pure writer returns.
+    (a) No fault in the schedule: `Ok`.
+    (b) An `Err(t)` is exactly the first `.fail` of the schedule, which the run consumed; the sink
+        then holds a *strict* prefix of `file` (never the complete file, never other bytes), and
+        `CountWrite::count` is the number of bytes it holds.
+    (c) `Ok` means the sink holds exactly `file` (never success after a failure).
+    (d) If the run reaches the first fault of the schedule, it reports that fault's tag. -/
+theorem C12_writer_fault (H : WriterHyps cd cfg es) (hrun : W.run cd cfg es = .ok (file, log))
+    (hfile : file.length < 2 ^ 64) (hcount : es.length < 2 ^ 64) (hid : cd.id ≤ 5)
+    (hm : Meta.parse file = .ok m) (sch : List WResp) :
+    let r := W.runIO cd log m sch
+    (WFaultFree sch → r.2.2 = none) ∧
+    (∀ t, r.2.2 = some t →
+      ∃ used rest, WFaultFree used ∧ sch = used ++ .fail t :: r.2.1 ∧
+        rest ≠ [] ∧ file = r.1.data ++ rest ∧ r.1.count = r.1.data.length) ∧
+    (r.2.2 = none → r.1.data = file ∧ r.1.count = file.length) ∧
+    (∀ pre t post, WFaultFree pre → sch = pre ++ .fail t :: post →
+      r.2.1.length ≤ post.length → r.2.2 = some t ∧ r.2.1 = post) := by
+  have hfl := writes_flatten_run H hrun hfile hcount hid hm
+  obtain ⟨f1, f2⟩ := runIO_fault cd log m sch
+  rw [hfl] at f1 f2
+  refine ⟨fun hff => (runIO_ff cd log m hff).1, f1, f2, ?_⟩
+  exact (C12_write_fault (W.writes cd log m) {} sch).2.2.2
+
+/-- Which call was interrupted: an `Err(t)` stops the run inside call number `j` of
+    `W.writes cd log m`; the calls before it went through completely, a strict prefix of call
+    `j` was written, nothing after it. -/
+theorem C12_writer_fault_call (cd : Codec) (log : List Emitted) (m : Meta.Meta)
+    (sch : List WResp) (t : Nat) (h : (W.runIO cd log m sch).2.2 = some t) :
+    ∃ j b k, (W.writes cd log m)[j]? = some b ∧ k < b.length ∧
+      (W.runIO cd log m sch).1.data = ((W.writes cd log m).take j).flatten ++ b.take k := by
+  obtain ⟨used, j, b, k, -, -, hj, hk, hd, -⟩ :=
+    (C12_write_fault (W.writes cd log m) {} sch).2.1 t h
+  refine ⟨j, b, k, hj, hk, ?_⟩
+  have hd' : (W.runIO cd log m sch).1.data =
+      ([] : Bytes) ++ ((W.writes cd log m).take j).flatten ++ b.take k := hd
+  simpa using hd'
+
+end
+
+/-- the hypotheses hold for the instance `wx…` of `Grenad.Proofs.Wave3IO`; a fault while the
+    second block's body is being written (after 24 + 8 + 2 bytes): the tag is reported, the sink
+    holds the first 34 bytes of the file -/
+example : ∃ rest, rest ≠ [] ∧ wxFile =
+    (W.runIO Codec.none wxLog wxMeta (List.replicate 34 (.accept 1) ++ [.fail 9, .accept 5])).1.data ++ rest := by
+  have h := (C12_writer_fault wxHyps wxRun wxFile_lt (by decide) (by decide) wxParse
+    (List.replicate 34 (.accept 1) ++ [.fail 9, .accept 5])).2.1 9
+    (by set_option maxRecDepth 100000 in decide)
+  obtain ⟨_, rest, -, -, h1, h2, -⟩ := h
+  exact ⟨rest, h1, h2⟩
+
+example : W.runIO Codec.none wxLog wxMeta (List.replicate 34 (.accept 1) ++ [.fail 9, .accept 5]) =
+    ({ data := wxFile.take 34, count := 34 }, [.accept 5], some 9) := by
+  set_option maxRecDepth 100000 in decide
+
+end Grenad.Props.C12
+
+section Audit
+open Grenad.Props.C12
+#print axioms C12_writer_fault
+#print axioms C12_writer_fault_call
+end Audit
